@@ -324,7 +324,7 @@ def gen_field_value(rng, cname, f, valid=True):
     """a value for field f of class cname; valid=True: one the class accepts"""
     if not valid:
         if cname == 'Labels':      # type-invalid only: which strings the label validators accept is C16's subject
-            return rng.choice([-1, 1.5, None, {'a': 1}, True, 0, -0.5])
+            return rng.choice([-1, 1.5, None, {'a': 1}, True, 0, -0.5, ['a', 1], [None], [['a']]])   # ec8752b: list elements too
         return rng.choice([-1, 'x', 1.5, None, [1], {'a': 1}, True, 0, -0.5, [], ''])
     if cname == 'Capacities':
         return rng.choice([0, 0, 1, 2, 5, 64, 1000, 10 ** 30, 2 ** 63, 4096, 1, 7, None, True, False])
@@ -371,7 +371,9 @@ def compatible(cname, v):
         return v is None or (isinstance(v, int) and v >= 0)
     if cname == 'CapacityHints':
         return isinstance(v, str)
-    if cname in ('Labels', 'ReservationInfo', 'StructuralInfo'):
+    if cname == 'Labels':
+        return isinstance(v, str) or (isinstance(v, list) and all(isinstance(i, str) for i in v))
+    if cname in ('ReservationInfo', 'StructuralInfo'):
         return isinstance(v, (str, list))
     if cname == 'Location':
         return isinstance(v, (str, float))
@@ -421,7 +423,10 @@ class FieldStream(Stream):
             if mode == 0 and kw:
                 kw[rng.randrange(len(kw))][1] = gen_field_value(rng, cname, kw[0][0], valid=False)
             if mode == 1:
-                kw.append([rng.choice(['bogus', 'gpu', 'Cpu']), compatible_extra(rng, cname)])
+                # an unknown name; for the classes whose setters test `k in self.__dict__` (a313e77) also the name of a method or
+                # class attribute, which is an unknown field like any other
+                names = ['bogus', 'gpu', 'Cpu'] + (['to_json', 'update', 'VALIDATORS', 'UNITS'] if cname in ('Capacities', 'Labels') else [])
+                kw.append([rng.choice(names), compatible_extra(rng, cname)])
             extras = []
             for _e in range(rng.choice([0, 1, 1, 2, 3])):
                 key = rng.choice(['future', 'gpu_model', 'x', 'new-field', 'cpu2', 'zz', '_private', 'Lat', 'fpga', 'nic',
